@@ -9,7 +9,7 @@ import (
 
 	"github.com/polynetwork/poly/common"
 	"github.com/polynetwork/poly/common/config"
-	"github.com/polynetwork/poly/core/genesis"
+	"github.com/polynetwork/poly/core/payload"
 	"github.com/polynetwork/poly/core/types"
 	"github.com/polynetwork/poly/errors"
 	tc "github.com/polynetwork/poly/txnpool/common"
@@ -53,10 +53,26 @@ type universe struct {
 	names map[common.Uint256]string
 }
 
+// invokeTx builds a real invoke transaction the way genesis.NewInvokeTransaction does (serialize, re-parse so that the
+// hash is set) without pulling the native contracts into this small binary.
+func invokeTx(code []byte, nonce uint32) *types.Transaction {
+	tx := &types.Transaction{Version: types.CURR_TX_VERSION, TxType: types.Invoke, Payload: &payload.InvokeCode{Code: code},
+		Nonce: nonce, ChainID: config.GetChainIdByNetId(config.DefConfig.P2PNode.NetworkId)}
+	sink := common.NewZeroCopySink(nil)
+	if err := tx.Serialization(sink); err != nil {
+		vio.Fatal("serialize: %v", err)
+	}
+	r, err := types.TransactionFromRawBytes(sink.Bytes())
+	if err != nil {
+		vio.Fatal("re-parse: %v", err)
+	}
+	return r
+}
+
 func newUniverse(n int, salt uint32) *universe {
 	u := &universe{names: map[common.Uint256]string{}}
 	for i := 1; i <= n; i++ {
-		tx := genesis.NewInvokeTransaction([]byte(fmt.Sprintf("verif-pool-%d", i)), salt*1000+uint32(i))
+		tx := invokeTx([]byte(fmt.Sprintf("verif-pool-%d", i)), salt*1000+uint32(i))
 		u.txs = append(u.txs, tx)
 		u.names[tx.Hash()] = fmt.Sprintf("t%d", i)
 	}
@@ -181,10 +197,37 @@ func exec(p *tc.TXPool, u *universe, c *call, variant uint64) {
 	normalize(c)
 }
 
-func randomCall(r *vio.RNG, ntx, maxH int, hot bool) *call {
+func randomCall(r *vio.RNG, ntx, maxH int, mode string) *call {
 	c := &call{}
 	name := func() string { return fmt.Sprintf("t%d", 1+r.Intn(ntx)) }
-	if hot { // contention on one or two hashes: adds and removals of the same transaction race with each other
+	if mode == "stale" {
+		// contention on removal by age: several callers ask about the same stale entries (verify-block path) while
+		// others list / look up; every stale entry must be handed to exactly one caller
+		some := func() []string {
+			n := 1 + r.Intn(3)
+			var l []string
+			for _, i := range r.Perm(ntx)[:min(n, ntx)] {
+				l = append(l, fmt.Sprintf("t%d", i+1))
+			}
+			return l
+		}
+		switch k := r.Intn(20); {
+		case k < 10:
+			c.Op, c.Ts, c.H = "unv", some(), 1+r.Intn(maxH)
+		case k < 13:
+			c.Op, c.By, c.H = "get", r.Bool(), r.Intn(maxH+1)
+		case k < 15:
+			c.Op, c.T = "has", name()
+		case k < 16:
+			c.Op, c.T = "status", name()
+		case k < 17:
+			c.Op = "count"
+		default:
+			c.Op, c.T, c.H = "add", name(), r.Intn(2)
+		}
+		return c
+	}
+	if mode == "hot" { // contention on one or two hashes: adds and removals of the same transaction race with each other
 		switch k := r.Intn(10); {
 		case k < 5:
 			c.Op, c.T, c.H = "add", name(), r.Intn(maxH+1)
@@ -229,24 +272,38 @@ func randomCall(r *vio.RNG, ntx, maxH int, hot bool) *call {
 }
 
 // linRecord: nh histories; in each, ng goroutines run nops random calls on one real TXPool concurrently.
-func linRecord(nh, ng, nops, maxtx int, hot bool) {
+func linRecord(nh, ng, nops, maxtx int, mode string) {
+	hot := mode != ""
 	config.DefConfig.Consensus.MaxTxInBlock = uint(maxtx)
 	rng := vio.NewRNG(vio.Seed()*7919 + uint64(ng*100+nops))
 	u := newUniverse(12, 1)
 	overlaps := 0
 	for h := 0; h < nh; h++ {
 		ntx := 2 + rng.Intn(5) // small universes make conflicting calls likely
-		if hot {
+		if mode == "hot" {
 			ntx = 1 + rng.Intn(2)
+		}
+		if mode == "stale" {
+			ntx = 2 + rng.Intn(3)
 		}
 		p := &tc.TXPool{}
 		p.Init()
 		var stamp int64
+		var prefix []*call
+		if mode == "stale" { // the pool starts with entries verified at heights 0..1 (sequential prefix of the history)
+			for i := 1; i <= ntx; i++ {
+				c := &call{Op: "add", T: fmt.Sprintf("t%d", i), H: rng.Intn(2)}
+				c.S = atomic.AddInt64(&stamp, 1)
+				exec(p, u, c, rng.U64())
+				c.E = atomic.AddInt64(&stamp, 1)
+				prefix = append(prefix, c)
+			}
+		}
 		progs := make([][]*call, ng)
 		vars := make([][]uint64, ng)
 		for g := 0; g < ng; g++ {
 			for i := 0; i < nops; i++ {
-				c := randomCall(rng, ntx, 3, hot)
+				c := randomCall(rng, ntx, 3, mode)
 				c.G = g + 1
 				progs[g] = append(progs[g], c)
 				vars[g] = append(vars[g], rng.U64())
@@ -271,7 +328,7 @@ func linRecord(nh, ng, nops, maxtx int, hot bool) {
 		}
 		close(start)
 		wg.Wait()
-		hist := &history{}
+		hist := &history{Calls: prefix}
 		for g := 0; g < ng; g++ {
 			hist.Calls = append(hist.Calls, progs[g]...)
 		}
@@ -291,6 +348,7 @@ func linRecord(nh, ng, nops, maxtx int, hot bool) {
 			}
 		}
 		vio.Emit(hist)
+		vio.Flush()
 	}
 	vio.Emit(map[string]interface{}{"summary": true, "histories": nh, "overlapping_pairs": overlaps})
 }
